@@ -233,6 +233,20 @@ class P:
                 return ("call", last, [a, b])
             if path[0] in ("f64", "f32") and last in FLOAT_CONSTS and not self.at("("):
                 return ("fconst", FLOAT_CONSTS[last])
+            if last == "try_from" and path[0] in UNSIGNED and self.at("("):
+                # `uN::try_from(e).unwrap_or(d)`: e when it fits the type, d otherwise
+                self.eat()
+                a = self.expr()
+                self.eat("op", ")")
+                if not (self.at(".") and self.peek(1) == ("id", "unwrap_or")):
+                    raise Unsupported("try_from without unwrap_or")
+                self.eat()
+                self.eat("id")
+                self.eat("op", "(")
+                d = self.expr()
+                self.eat("op", ")")
+                top = ("int", str(2 ** (64 if path[0] == "usize" else int(path[0][1:])) - 1))
+                return ("if", ("bin", "<=", a, top), a, d)
             if last == "from" and (path[0] in UNSIGNED or path[0] in ("f64", "f32")) and self.at("("):
                 self.eat()
                 a = self.expr()
